@@ -225,7 +225,7 @@ func TestVerifGossipRealClaim(t *testing.T) {
 			time.Sleep(150 * time.Millisecond) // a's announcement has gone round (several gossip intervals)
 			claimed := vgrWithin(5*time.Second, func() { b.sm.RegisterShard(shard) })
 			owners := []string{}
-			deadline := time.Now().Add(5 * time.Second)
+			deadline := time.Now().Add(10 * time.Second)
 			for {
 				owners = owners[:0]
 				for _, n := range nodes {
